@@ -26,6 +26,7 @@ import (
 	"strings"
 	"testing"
 
+	"golang.org/x/sys/unix"
 	v1 "k8s.io/api/core/v1"
 	"k8s.io/apimachinery/pkg/types"
 	k8sp "k8s.io/kubernetes/pkg/proxy"
@@ -83,25 +84,26 @@ var c42ErrInjected = fmt.Errorf("injected: cannot allocate memory")
 type c42ObsMap struct {
 	*mock.Map
 	after func(name, op string, k []byte)
-	fail  func(name, op string, k []byte) bool
+	// fail decides the fate of one attempted operation: "" = normal, "fail" = not applied and an
+	// error returned, "lost" = applied but the reply is lost (an error is returned all the same).
+	fail func(name, op string, k []byte) string
 }
 
 func (m *c42ObsMap) Update(k, v []byte) error {
-	if m.fail(m.Map.GetName(), "update", k) {
+	kind := m.fail(m.Map.GetName(), "update", k)
+	if kind == "fail" {
 		return c42ErrInjected
 	}
 	err := m.Map.Update(k, v)
 	m.after(m.Map.GetName(), "update", k)
+	if kind == "lost" {
+		return c42ErrInjected
+	}
 	return err
 }
 
 func (m *c42ObsMap) UpdateWithFlags(k, v []byte, flags int) error {
-	if m.fail(m.Map.GetName(), "update", k) {
-		return c42ErrInjected
-	}
-	err := m.Map.UpdateWithFlags(k, v, flags)
-	m.after(m.Map.GetName(), "update", k)
-	return err
+	return m.Update(k, v)
 }
 
 func (m *c42ObsMap) BatchUpdate(ks, vs [][]byte, flags uint64) (int, error) {
@@ -115,11 +117,20 @@ func (m *c42ObsMap) BatchUpdate(ks, vs [][]byte, flags uint64) (int, error) {
 }
 
 func (m *c42ObsMap) Delete(k []byte) error {
-	if m.fail(m.Map.GetName(), "delete", k) {
+	kind := m.fail(m.Map.GetName(), "delete", k)
+	if kind == "fail" {
 		return c42ErrInjected
+	}
+	// The kernel answers ENOENT for a key that is not in the map (felix/bpf/mock does not).
+	if !m.Map.ContainsKey(k) {
+		m.after(m.Map.GetName(), "delete-ENOENT", k)
+		return unix.ENOENT
 	}
 	err := m.Map.Delete(k)
 	m.after(m.Map.GetName(), "delete", k)
+	if kind == "lost" {
+		return c42ErrInjected
+	}
 	return err
 }
 
@@ -140,24 +151,38 @@ type c42Env struct {
 	// listed in faultAt fail once; faultAll ("frontend-delete", "backend-update", ...) makes every
 	// such operation fail for the whole Apply.
 	attempts    int
-	faultAt     map[int]bool
+	faultAt     map[int]string // attempt -> "fail" | "lost"
 	faultAll    string
 	faultsFired []string
+	enoents     int
 }
 
-func (e *c42Env) shouldFail(name, op string, k []byte) bool {
+func (e *c42Env) shouldFail(name, op string, k []byte) string {
 	e.attempts++
 	which := "backend"
 	if name == e.fe.GetName() {
 		which = "frontend"
 	}
-	if e.faultAt[e.attempts] || e.faultAll == which+"-"+op {
-		f := fmt.Sprintf("attempt %d: %s %s %x FAILS", e.attempts, which, op, k)
+	kind := e.faultAt[e.attempts]
+	if kind == "lost" && op != "delete" {
+		// A bpf map update that returns an error has not been applied (one syscall, no reply to
+		// lose); only a delete the syncer asked for may take effect behind its back, which is the
+		// same as somebody else removing that key.
+		kind = "fail"
+	}
+	if kind == "" && e.faultAll == which+"-"+op {
+		kind = "fail"
+	}
+	if kind != "" {
+		verb := "FAILS"
+		if kind == "lost" {
+			verb = "APPLIED-BUT-REPLY-LOST"
+		}
+		f := fmt.Sprintf("attempt %d: %s %s %x %s", e.attempts, which, op, k, verb)
 		e.faultsFired = append(e.faultsFired, f)
 		e.writeLog = append(e.writeLog, f)
-		return true
 	}
-	return false
+	return kind
 }
 
 func (e *c42Env) frontends() map[nat.FrontendKey]nat.FrontendValue {
@@ -209,6 +234,11 @@ func (e *c42Env) midUpdateInvariant() string {
 }
 
 func (e *c42Env) afterWrite(name, op string, k []byte) {
+	if op == "delete-ENOENT" {
+		e.enoents++
+		e.writeLog = append(e.writeLog, fmt.Sprintf("delete of a key that is already gone -> ENOENT (%s %x)", name, k))
+		return
+	}
 	e.writes++
 	desc := fmt.Sprintf("#%d %s %s %x", e.writes, name, op, k)
 	if name == e.fe.GetName() {
@@ -313,6 +343,28 @@ func c42Keys[V any](m map[string]V) []string {
 		out = append(out, k)
 	}
 	sort.Strings(out)
+	return out
+}
+
+// c42WantFrontendKeys is the set of frontend keys the reference expansion of the state contains.
+func c42WantFrontendKeys(svcs map[string]*c42Svc) map[nat.FrontendKey]bool {
+	out := map[nat.FrontendKey]bool{}
+	for _, key := range c42Keys(svcs) {
+		s := svcs[key]
+		proto := c42ProtoNum(s.Proto)
+		out[nat.NewNATKey(net.ParseIP(s.clusterIP()), uint16(s.port()), proto)] = true
+		for _, x := range append(append([]string{}, s.LBIPs...), s.ExtIPs...) {
+			out[nat.NewNATKey(net.ParseIP(x), uint16(s.port()), proto)] = true
+			for _, c := range s.SrcRanges {
+				out[nat.NewNATKeySrc(net.ParseIP(x), uint16(s.port()), proto, ip.MustParseCIDROrIP(c))] = true
+			}
+		}
+		if s.NodePort != 0 {
+			for _, x := range c42NodePortIPs {
+				out[nat.NewNATKey(net.ParseIP(x), uint16(s.NodePort), proto)] = true
+			}
+		}
+	}
 	return out
 }
 
@@ -622,6 +674,30 @@ func c42Run(t *rapid.T, rec *ev.Recorder) {
 			classes["restart-from-existing-maps"] = true
 			hist = append(hist, "restart")
 		}
+		// Somebody else (an operator's cleanup script, the bootstrap container) removes frontends
+		// that are stale with respect to the state about to be applied, behind the syncer's back.
+		// Removing a frontend can never break the reference invariant.
+		if applies > 0 && rapid.IntRange(0, 3).Draw(t, "outOfBandCleanup") == 0 {
+			want := c42WantFrontendKeys(svcs)
+			var stale []nat.FrontendKey
+			for k := range e.frontends() {
+				if !want[k] {
+					stale = append(stale, k)
+				}
+			}
+			sort.Slice(stale, func(i, j int) bool { return string(stale[i][:]) < string(stale[j][:]) })
+			n := 0
+			for _, k := range stale {
+				if rapid.Bool().Draw(t, "removeStaleFrontend") {
+					_ = e.fe.Delete(k[:])
+					n++
+				}
+			}
+			if n > 0 {
+				classes["stale-frontend-removed-out-of-band"] = true
+				hist = append(hist, fmt.Sprintf("oob-cleanup(%d)", n))
+			}
+		}
 		// Apply, possibly dying at a map write and / or with individual map writes failing.
 		e.crashAt = 0
 		if rapid.IntRange(0, 4).Draw(t, "crash") == 0 {
@@ -630,9 +706,9 @@ func c42Run(t *rapid.T, rec *ev.Recorder) {
 		e.attempts, e.faultAt, e.faultAll, e.faultsFired = 0, nil, "", nil
 		switch rapid.IntRange(0, 5).Draw(t, "writeFaults") {
 		case 0, 1:
-			e.faultAt = map[int]bool{}
+			e.faultAt = map[int]string{}
 			for i := rapid.IntRange(1, 3).Draw(t, "nFaults"); i > 0; i-- {
-				e.faultAt[rapid.IntRange(1, 24).Draw(t, "failAttempt")] = true
+				e.faultAt[rapid.IntRange(1, 24).Draw(t, "failAttempt")] = rapid.SampledFrom([]string{"fail", "fail", "lost"}).Draw(t, "faultKind")
 			}
 		case 2:
 			e.faultAll = rapid.SampledFrom([]string{"frontend-delete", "frontend-delete", "backend-update", "backend-update", "frontend-update", "backend-delete"}).Draw(t, "failAll")
@@ -667,6 +743,9 @@ func c42Run(t *rapid.T, rec *ev.Recorder) {
 			for _, f := range fired {
 				parts := strings.Fields(f)
 				classes["fault-"+parts[2]+"-"+parts[3]] = true
+				if strings.HasSuffix(f, "LOST") {
+					classes["fault-applied-but-reply-lost"] = true
+				}
 			}
 			hist = append(hist, fmt.Sprintf("apply-ERR(%dw,%df)", e.writes-before, len(fired)))
 			pendingRetry = true
@@ -727,6 +806,9 @@ func c42Run(t *rapid.T, rec *ev.Recorder) {
 			}
 		}
 	}
+	if e.enoents > 0 {
+		classes["delete-answered-ENOENT"] = true
+	}
 	if pendingRetry {
 		// The last sync failed on an injected write error: the fault-free retry must converge.
 		e.crashAt = 0
@@ -763,7 +845,7 @@ func TestVerifC42SyncerMidUpdate(t *testing.T) {
 	ev.Quiet()
 	rec := ev.New("C42", "syncer",
 		"random histories over 4 services x 2 ports (cluster IP, 0-2 external IPs, 0-2 load-balancer IPs with optional source ranges, node port, external/internal local policy, session affinity, TCP/UDP) and endpoint sets (ready / not ready / terminating, local / remote, growing, shrinking, reordered); syncer restarts over the existing maps, simulated crashes at a chosen map write followed by a restart, and injected failures of individual map Update/Delete calls; non-trivial when an endpoint set shrinks, a syncer restarts from existing maps, a crash interrupts an Apply or a write failure is injected; distinct by step-kind sequence + classes",
-		"every single Update/Delete of the frontend and backend maps is observed through a wrapper of felix/bpf/mock.Map (batch operations are applied entry by entry); the wrapper sits below cachingmap / TypedMap and can make individual Update/Delete calls fail (chosen attempts once, or every frontend/backend update/delete of one Apply)",
+		"every single Update/Delete of the frontend and backend maps is observed through a wrapper of felix/bpf/mock.Map (batch operations are applied entry by entry); the wrapper sits below cachingmap / TypedMap and can make individual Update/Delete calls fail (chosen attempts once - not applied, or applied with the reply lost - or every frontend/backend update/delete of one Apply); Delete of a key that is not in the map answers ENOENT like the kernel; stale frontends may be removed behind the syncer's back between syncs",
 		"an Apply that returns nil is judged as a completed sync (maps exact) even when write failures were injected; an Apply that returns an error is followed (at once or later) by a fault-free Apply that must return nil and leave the maps exact; clause M is checked after every successful write throughout",
 		"frontend keys of different services never collide (unique cluster IPs, external/LB IPs and node ports, as Kubernetes guarantees for cluster IPs and node ports)",
 		"no topology hints, no Maglev, no default/kubernetes service, no internalTrafficPolicy=Local together with a node port (per-node expansion from the route table is not modelled)",
